@@ -1266,8 +1266,8 @@ theorem run_bisim {σ : Type} {W : World} (hW : W.Ok) {D : Decoder σ ℝ} {pos 
 noncomputable def worldOf (d : StaticSoundData ℝ) : World :=
   { frames := d.frames, slice := d.slice,
     t0 := { position := d.settings.startPosition.intoSamples d.sampleRate,
-            loopRegion := d.settings.loopRegion.map (fun r => r.toSamples d.sampleRate
-              (match d.slice with | some (a, b) => b - a | none => d.frames.size)),
+            loopRegion := Transport.validLoop (d.settings.loopRegion.map (fun r => r.toSamples d.sampleRate
+              (match d.slice with | some (a, b) => b - a | none => d.frames.size))),
             playing := true } }
 
 /-- the streaming data describes the same sound as the static data -/
@@ -1387,7 +1387,7 @@ theorem new_bisim {σ : Type} {D : Decoder σ ℝ} {pos : σ → Nat} {good : σ
       cases d.slice with
       | none => rfl
       | some ab => cases ab; rfl
-    have htr : ({ position := sd.settings.startPosition.intoSamples sd.sampleRate, loopRegion := sd.settings.loopRegion.map (fun r => r.toSamples sd.sampleRate (match sd.slice with | some (a, b) => b - a | none => sd.decFrames)), playing := true } : Transport) = W.t0 := by
+    have htr : ({ position := sd.settings.startPosition.intoSamples sd.sampleRate, loopRegion := Transport.validLoop (sd.settings.loopRegion.map (fun r => r.toSamples sd.sampleRate (match sd.slice with | some (a, b) => b - a | none => sd.decFrames))), playing := true } : Transport) = W.t0 := by
       rw [hsame.startPosition, hsame.sampleRate, hsame.loopRegion, hnumF]
       rfl
     exact {
